@@ -35,6 +35,12 @@ struct EngineB {
         Rng pick = sim::stream(run_seed, "menu");
         const ea::CfgEntry *e = menu[pick.below(menu.size())];
         ea::GenCtx g{run_seed, run_index, opt.prop, opt.tier, opt.profile, tsan};
+        if (ea::scale_slot(g) && opt.prop == "C15" && (run_index & 15) < 4) {
+            // the "huge" scale slots (b_dynamic.hpp) need wide keys and trivially copyable values
+            std::vector<const ea::CfgEntry *> pref;
+            for (auto c : menu) if (c->cls == "dyn" && c->name.find(":str") == std::string::npos && c->name.find(":u16") == std::string::npos) pref.push_back(c);
+            if (!pref.empty()) e = pref[pick.below(pref.size())];
+        }
         PlanText p = e->gen(*e, g, st);
         p.set("seed", run_seed);
         return p;
